@@ -449,6 +449,14 @@ func (s *Set) Value(_ context.Context, t *dials.Type) (reflect.Value, error) {
 			return
 		}
 
+		// The helpers for complex and text-unmarshalable flags hand back a
+		// pointer to their variable: when that isn't the field's own type
+		// (a user-defined named type, or a type that is not pointerified),
+		// work with what it points to.
+		if fval.Kind() == reflect.Ptr && !fval.IsNil() {
+			fval = fval.Elem()
+		}
+
 		if willOverflow(fval, ptrVal.Elem()) {
 			setErr = fmt.Errorf("value for flag %q (%s) would overflow type %s",
 				f.Name, f.Value.String(), ptrVal.Type().Elem())
